@@ -87,8 +87,10 @@ func VerifC05Header() {
 	// the size field: 0 in the draft header seal writes first, the header length minus the field
 	// itself in the final header
 	sizeField := uint32(0)
+	final := false
 	ref := verifC05RefHeader(sizeField, meta.KeyVals, &offs)
-	if verifParam("final", 1) == 1 {
+	if f := verifParam("final", 1); f == 1 || (f == 2 && verifChoice("final", 2) == 1) {
+		final = true
 		sizeField = uint32(len(ref) - 4)
 		ref = verifC05RefHeader(sizeField, meta.KeyVals, &offs)
 	}
@@ -99,6 +101,12 @@ func VerifC05Header() {
 	verifAssert(len(got) == len(ref), "C05.header: header length differs from the reference layout (metadata block misframed?)")
 	verifAssert(bytes.Equal(got, ref), "C05.header: header bytes differ from the reference layout")
 	verifReach("written")
+
+	if !final {
+		// the draft only reserves the space: it must have the length of the final header, and is never read
+		verifReach("end")
+		return
+	}
 
 	// (r)
 	rOffs, rMeta, start, err := readHeader(&verifC05RA{data: append(append([]byte(nil), ref...), 0xEE, 0xEE)})
